@@ -311,3 +311,262 @@ Section RwSim.
       + rewrite L. reflexivity.
   Qed.
 End RwSim.
+
+(* ------------------------------------------------------------------ namespace insensitivity *)
+Lemma insens_abs e : insens e = true -> forall d1 d2, abs_el d1 e = abs_el d2 e.
+Proof.
+  induction e as [i k own data kids IH] using cel_ind'. intros H d1 d2. rewrite !abs_el_eq.
+  cbn [insens] in H. destruct own as [d|]; [reflexivity|]. cbn [in_scope].
+  apply andb_true_iff in H as [Ha Hk]. f_equal.
+  - destruct k as [ns name attrs| |]; try reflexivity. cbn [abs_payload]. f_equal.
+    induction attrs as [|[[n kk] v] r IHr]; [reflexivity|]. cbn [forallb fst] in Ha.
+    apply andb_true_iff in Ha as [Hn Hr]. cbn [map present_attr]. rewrite IHr by exact Hr.
+    destruct (null n); [discriminate|reflexivity].
+  - unfold akids. f_equal. clear Ha.
+    induction kids as [|[c t] r IHr]; [reflexivity|]. inversion IH as [|? ? Hc Hrest]; subst. cbn [fst] in Hc.
+    cbn [forallb] in Hk. apply andb_true_iff in Hk as [Hkc Hkr]. cbn [flat_map akid].
+    rewrite (Hc Hkc d1 d2), (IHr Hrest Hkr). reflexivity.
+Qed.
+
+Definition aloose (dns : str) (n : cloose) : itree := match n with LEl c => abs_el dns c | LText t => atext t end.
+Definition n_insens (n : cloose) : bool := match n with LEl c => insens c | LText _ => true end.
+Definition move_guard (n : cloose) (a : minfo) : Prop :=
+  snd a = true /\ (null (fst a) = true \/ n_insens n = true).
+Lemma aloose_guard n dns : null dns = true \/ n_insens n = true -> aloose dns n = abs_loose n.
+Proof.
+  intros [H|H]; destruct n as [c|t]; try reflexivity; cbn [aloose abs_loose]; unfold abs_top.
+  - destruct dns; [reflexivity|discriminate].
+  - apply insens_abs, H.
+Qed.
+Lemma iid_abs_loose n : iid (abs_loose n) = loose_id n.
+Proof. destruct n; [apply iid_abs|reflexivity]. Qed.
+Lemma has_id_abs_loose x n : has_id x (abs_loose n) = N.eqb (loose_id n) x.
+Proof. unfold has_id. rewrite iid_abs_loose. reflexivity. Qed.
+Lemma ctake_sim n l :
+  match ctake_loose n l with
+  | Some (t, l') => take_id n (map abs_loose l) = Some (abs_loose t, map abs_loose l') /\
+                    (forallb loose_ok l = true -> loose_ok t = true /\ forallb loose_ok l' = true)
+  | None => take_id n (map abs_loose l) = None
+  end.
+Proof.
+  induction l as [|t r IH]; [reflexivity|]. cbn [ctake_loose map take_id]. rewrite has_id_abs_loose. destruct (N.eqb (loose_id t) n).
+  - split; [reflexivity|]. cbn [forallb]. intros H. apply andb_true_iff in H. exact H.
+  - destruct (ctake_loose n r) as [[u r']|].
+    + destruct IH as [IH1 IH2]. rewrite IH1. split; [reflexivity|]. cbn [forallb]. intros H.
+      apply andb_true_iff in H as [H1 H2]. destruct (IH2 H2) as [H3 H4]. rewrite H1, H4. auto.
+    + rewrite IH. reflexivity.
+Qed.
+
+(* ------------------------------------------------------------------ hitting the node x in a kid list *)
+Lemma existsb_at x pre (t : itree) post : has_id x t = true -> existsb (has_id x) (pre ++ t :: post) = true.
+Proof. intros H. rewrite existsb_app. cbn [existsb]. rewrite H. apply orb_true_iff. right. reflexivity. Qed.
+Lemma ins_after_at x n pre t post : existsb (has_id x) pre = false -> has_id x t = true ->
+  ins_after x n (pre ++ t :: post) = pre ++ t :: n :: post.
+Proof. intros H1 H2. rewrite ins_after_skip by exact H1. cbn [ins_after]. rewrite H2. reflexivity. Qed.
+Lemma ins_before_at x n pre t post : existsb (has_id x) pre = false -> has_id x t = true ->
+  ins_before x n (pre ++ t :: post) = pre ++ n :: t :: post.
+Proof. intros H1 H2. rewrite ins_before_skip by exact H1. cbn [ins_before]. rewrite H2. reflexivity. Qed.
+Lemma take_id_at x pre t post : existsb (has_id x) pre = false -> has_id x t = true ->
+  take_id x (pre ++ t :: post) = Some (t, pre ++ post).
+Proof. intros H1 H2. rewrite take_id_skip by exact H1. cbn [take_id]. rewrite H2. reflexivity. Qed.
+Lemma find_at x pre (t : itree) post : existsb (has_id x) pre = false -> has_id x t = true ->
+  find (has_id x) (pre ++ t :: post) = Some t.
+Proof. intros H1 H2. rewrite find_skip by exact H1. cbn [find]. rewrite H2. reflexivity. Qed.
+Lemma set_first_at x s pre t post : existsb (has_id x) pre = false -> has_id x t = true ->
+  set_text_first x s (pre ++ t :: post) = pre ++ set_text s t :: post.
+Proof. intros H1 H2. rewrite set_first_skip by exact H1. cbn [set_text_first]. rewrite H2. reflexivity. Qed.
+Lemma existsb_app_false {X} (p : X -> bool) l1 l2 :
+  existsb p l1 = false -> existsb p l2 = false -> existsb p (l1 ++ l2) = false.
+Proof. intros H1 H2. rewrite existsb_app, H1, H2. reflexivity. Qed.
+
+Ltac norm :=
+  repeat (rewrite ?map_app, ?flat_akid_app, ?chain_texts_of, ?no_chain_texts; cbn [map flat_map akid app]);
+  repeat rewrite <- app_assoc; cbn [app].
+Ltac fail_show := match goal with |- ?g => fail 0 g end.
+Ltac bools :=
+  repeat match goal with
+         | H : (_ && _)%bool = true |- _ => apply andb_true_iff in H; destruct H
+         | H : forallb _ (_ ++ _) = true |- _ => rewrite forallb_app in H
+         | H : forallb _ (_ :: _) = true |- _ => cbn [forallb] in H
+         end;
+  rewrite ?chain_ok_of, ?kids_ok_app, ?forallb_app; cbn [forallb kid_ok nonempty_text];
+  rewrite ?chain_ok_of, ?forallb_app; cbn [forallb]; change (chain_ok no_chain) with true;
+  repeat match goal with
+         | H : chain_ok ?t = true |- context [forallb nonempty_text (chain_texts ?t)] => rewrite (chain_ok_texts t H)
+         | H : ?a = true |- context [?a] => rewrite H
+         end; try reflexivity.
+
+(* ------------------------------------------------------------------ local lemmas: one per primitive *)
+Lemma at_parent_hit x fn i p pre t post :
+  existsb (has_id x) pre = false -> has_id x t = true ->
+  at_parent_of x fn (INode i p (pre ++ t :: post)) = Some (INode i p (fn (pre ++ t :: post)), tt).
+Proof. intros H1 H2. unfold at_parent_of. rewrite existsb_app, H1. cbn [existsb]. rewrite H2. reflexivity. Qed.
+Lemma at_parent_miss x fn i p l : existsb (has_id x) l = false -> at_parent_of x fn (INode i p l) = None.
+Proof. intros H. unfold at_parent_of. rewrite H. reflexivity. Qed.
+Lemma kind_shape_tag k own d1 k1 d2 k2 : chain_texts d1 <> [] \/ k1 <> [] ->
+  chain_ok d1 = true -> kind_shape k own d1 k1 = true -> kind_shape k own d2 k2 = true.
+Proof.
+  unfold kind_shape. destruct (is_ktag k); [reflexivity|]. intros H Hc Hs. exfalso.
+  apply andb_true_iff in Hs as [Hs _]. apply andb_true_iff in Hs as [He Hn].
+  destruct H as [H|H].
+  - apply H. destruct d1 as [h s a]. unfold chain_is_empty in He. cbn in He. destruct s; [discriminate|reflexivity].
+  - destruct k1; [apply H; reflexivity|discriminate].
+Qed.
+
+Section LocalMoves.
+  Variable x : nid.
+  Variable n : cloose.
+  Hypothesis n_ok : loose_ok n = true.
+
+  Lemma add_following_local inh e : el_ok e = true ->
+    match f_add_following x n inh e with
+    | Some (e', a) => move_guard n a ->
+        at_parent_of x (ins_after x (abs_loose n)) (abs_el inh e) = Some (abs_el inh e', tt) /\ el_ok e' = true /\
+        is_ktag (ckind_of e') = is_ktag (ckind_of e)
+    | None => at_parent_of x (ins_after x (abs_loose n)) (abs_el inh e) = None
+    end.
+  Proof.
+    destruct e as [i k own data kids]. intros Hok. rewrite el_ok_eq in Hok. apply andb3 in Hok as (Hd & Hks & Hkids).
+    cbn [f_add_following]. set (dns := in_scope inh own).
+    pose proof (split_texts_spec x (chain_texts data)) as Sd. pose proof (chain_ok_texts _ Hd) as Hdt.
+    destruct (split_texts x (chain_texts data)) as [[[b m] a]|].
+    - destruct Sd as (Ed & Hm & Hb).
+      assert (Hne : chain_texts data <> [] \/ kids <> []) by (left; rewrite Ed; destruct b; discriminate).
+      rewrite Ed in Hdt.
+      destruct n as [c|t]; intros [Hclean Hg]; cbn [fst snd] in Hg; rewrite !abs_el_eq; fold dns;
+        rewrite <- (aloose_guard _ dns Hg); unfold akids; rewrite Ed.
+      + split; [|split; [|reflexivity]].
+        * norm. rewrite at_parent_hit, ins_after_at by (rewrite ?existsb_texts; assumption). reflexivity.
+        * rewrite el_ok_eq. rewrite (kind_shape_tag _ _ _ _ _ _ Hne Hd Hks). cbn [loose_ok] in n_ok. bools.
+      + split; [|split; [|reflexivity]].
+        * norm. rewrite at_parent_hit, ins_after_at by (rewrite ?existsb_texts; assumption). reflexivity.
+        * rewrite el_ok_eq. rewrite (kind_shape_tag _ _ _ _ _ _ Hne Hd Hks). cbn [loose_ok] in n_ok. bools.
+    - pose proof (split_kids_spec dns x kids) as Sk.
+      destruct (split_kids x kids) as [[[[bk [c0 t0]] ak] pos]|].
+      + destruct Sk as (Ek & Hbk & Hpos).
+        assert (Hne : chain_texts data <> [] \/ kids <> []) by (right; rewrite Ek; destruct bk; discriminate).
+        rewrite Ek in Hkids. rewrite kids_ok_app in Hkids. cbn [forallb kid_ok] in Hkids.
+        assert (Hpre : existsb (has_id x) (map atext (chain_texts data) ++ flat_map (akid dns) bk) = false)
+          by (apply existsb_app_false; [rewrite existsb_texts; exact Sd|exact Hbk]).
+        destruct pos as [|b m a].
+        * destruct n as [c|t]; intros [Hclean Hg]; cbn [fst snd] in Hg; rewrite !abs_el_eq; fold dns;
+            rewrite <- (aloose_guard _ dns Hg); unfold akids; rewrite Ek.
+          -- split; [|split; [|reflexivity]].
+             ++ norm. rewrite app_assoc. rewrite at_parent_hit, ins_after_at by (rewrite ?has_id_abs; assumption).
+                norm. reflexivity.
+             ++ rewrite el_ok_eq. rewrite (kind_shape_tag _ _ _ _ _ _ Hne Hd Hks). cbn [loose_ok] in n_ok.
+                bools.
+          -- split; [|split; [|reflexivity]].
+             ++ norm. rewrite app_assoc. rewrite at_parent_hit, ins_after_at by (rewrite ?has_id_abs; assumption).
+                norm. reflexivity.
+             ++ rewrite el_ok_eq. rewrite (kind_shape_tag _ _ _ _ _ _ Hne Hd Hks). cbn [loose_ok] in n_ok.
+                bools.
+        * destruct Hpos as (Hc0 & Et0 & Hm & Hb).
+          assert (Hpre' : existsb (has_id x) ((map atext (chain_texts data) ++ flat_map (akid dns) bk)
+                                              ++ abs_el dns c0 :: map atext b) = false).
+          { apply existsb_app_false; [exact Hpre|]. cbn [existsb]. rewrite has_id_abs, Hc0, existsb_texts. exact Hb. }
+          apply andb_true_iff in Hkids as [Hbk' Hrest]. apply andb_true_iff in Hrest as [Hc0t0 Hak].
+          apply andb_true_iff in Hc0t0 as [Hc0ok Ht0ok]. pose proof (chain_ok_texts _ Ht0ok) as Ht0t. rewrite Et0 in Ht0t.
+          destruct n as [c|t]; intros [Hclean Hg]; cbn [fst snd] in Hg; rewrite !abs_el_eq; fold dns;
+            rewrite <- (aloose_guard _ dns Hg); unfold akids; rewrite Ek.
+          -- split; [|split; [|reflexivity]].
+             ++ norm. rewrite Et0. norm.
+                match goal with |- at_parent_of _ _ (INode _ _ ?l) = _ =>
+                  assert (EL : l = ((map atext (chain_texts data) ++ flat_map (akid dns) bk)
+                                      ++ abs_el dns c0 :: map atext b) ++ atext m :: map atext a ++ flat_map (akid dns) ak)
+                    by (norm; reflexivity) end.
+                rewrite EL, at_parent_hit, ins_after_at by assumption. norm. reflexivity.
+             ++ rewrite el_ok_eq. rewrite (kind_shape_tag _ _ _ _ _ _ Hne Hd Hks). cbn [loose_ok] in n_ok. bools.
+          -- split; [|split; [|reflexivity]].
+             ++ norm. rewrite Et0. norm.
+                match goal with |- at_parent_of _ _ (INode _ _ ?l) = _ =>
+                  assert (EL : l = ((map atext (chain_texts data) ++ flat_map (akid dns) bk)
+                                      ++ abs_el dns c0 :: map atext b) ++ atext m :: map atext a ++ flat_map (akid dns) ak)
+                    by (norm; reflexivity) end.
+                rewrite EL, at_parent_hit, ins_after_at by assumption. norm. reflexivity.
+             ++ rewrite el_ok_eq. rewrite (kind_shape_tag _ _ _ _ _ _ Hne Hd Hks). cbn [loose_ok] in n_ok. bools.
+      + rewrite abs_el_eq. apply at_parent_miss. unfold akids. apply existsb_app_false; [rewrite existsb_texts; exact Sd|exact Sk].
+  Qed.
+  Lemma g_before_hit nt i p pre t post :
+    existsb (has_id x) pre = false -> has_id x t = true -> (is_itext nt && negb (is_itext t))%bool = false ->
+    g_before x nt (INode i p (pre ++ t :: post)) = Some (INode i p (pre ++ nt :: t :: post), tt).
+  Proof. intros H1 H2 H3. unfold g_before. rewrite find_at, H3, ins_before_at by assumption. reflexivity. Qed.
+  Lemma g_before_block nt i p pre t post :
+    existsb (has_id x) pre = false -> has_id x t = true -> (is_itext nt && negb (is_itext t))%bool = true ->
+    g_before x nt (INode i p (pre ++ t :: post)) = None.
+  Proof. intros H1 H2 H3. unfold g_before. rewrite find_at, H3 by assumption. reflexivity. Qed.
+  Lemma g_before_miss nt i p l : existsb (has_id x) l = false -> g_before x nt (INode i p l) = None.
+  Proof. intros H. unfold g_before. rewrite find_none by exact H. reflexivity. Qed.
+
+  Lemma add_preceding_local inh e : el_ok e = true ->
+    match f_add_preceding x n inh e with
+    | Some (e', a) => move_guard n a ->
+        g_before x (abs_loose n) (abs_el inh e) = Some (abs_el inh e', tt) /\ el_ok e' = true /\
+        is_ktag (ckind_of e') = is_ktag (ckind_of e)
+    | None => g_before x (abs_loose n) (abs_el inh e) = None
+    end.
+  Proof.
+    destruct e as [i k own data kids]. intros Hok. rewrite el_ok_eq in Hok. apply andb3 in Hok as (Hd & Hks & Hkids).
+    cbn [f_add_preceding]. set (dns := in_scope inh own).
+    pose proof (split_texts_spec x (chain_texts data)) as Sd. pose proof (chain_ok_texts _ Hd) as Hdt.
+    destruct (split_texts x (chain_texts data)) as [[[b m] a]|].
+    - destruct Sd as (Ed & Hm & Hb).
+      assert (Hne : chain_texts data <> [] \/ kids <> []) by (left; rewrite Ed; destruct b; discriminate).
+      rewrite Ed in Hdt.
+      destruct n as [c|t]; intros [Hclean Hg]; cbn [fst snd] in Hg; rewrite !abs_el_eq; fold dns;
+        rewrite <- (aloose_guard _ dns Hg); unfold akids; rewrite Ed.
+      + split; [|split; [|reflexivity]].
+        * norm. rewrite g_before_hit by (rewrite ?existsb_texts; try assumption; cbn [aloose]; rewrite is_itext_abs; reflexivity).
+          reflexivity.
+        * rewrite el_ok_eq. rewrite (kind_shape_tag _ _ _ _ _ _ Hne Hd Hks). cbn [loose_ok] in n_ok. bools.
+      + split; [|split; [|reflexivity]].
+        * norm. rewrite g_before_hit by (rewrite ?existsb_texts; try assumption; reflexivity). reflexivity.
+        * rewrite el_ok_eq. rewrite (kind_shape_tag _ _ _ _ _ _ Hne Hd Hks). cbn [loose_ok] in n_ok. bools.
+    - pose proof (split_kids_spec dns x kids) as Sk.
+      destruct (split_kids x kids) as [[[[bk [c0 t0]] ak] pos]|].
+      + destruct Sk as (Ek & Hbk & Hpos).
+        assert (Hne : chain_texts data <> [] \/ kids <> []) by (right; rewrite Ek; destruct bk; discriminate).
+        rewrite Ek in Hkids. rewrite kids_ok_app in Hkids. cbn [forallb kid_ok] in Hkids.
+        assert (Hpre : existsb (has_id x) (map atext (chain_texts data) ++ flat_map (akid dns) bk) = false)
+          by (apply existsb_app_false; [rewrite existsb_texts; exact Sd|exact Hbk]).
+        destruct pos as [|b m a].
+        * destruct n as [c|t].
+          -- intros [Hclean Hg]; cbn [fst snd] in Hg; rewrite !abs_el_eq; fold dns;
+               rewrite <- (aloose_guard _ dns Hg); unfold akids; rewrite Ek.
+             split; [|split; [|reflexivity]].
+             ++ norm. rewrite app_assoc.
+                rewrite g_before_hit by (rewrite ?has_id_abs; try assumption; cbn [aloose]; rewrite !is_itext_abs; reflexivity).
+                norm. reflexivity.
+             ++ rewrite el_ok_eq. rewrite (kind_shape_tag _ _ _ _ _ _ Hne Hd Hks). cbn [loose_ok] in n_ok. bools.
+          -- rewrite abs_el_eq. fold dns. unfold akids. rewrite Ek. norm. rewrite app_assoc.
+             apply g_before_block; [exact Hpre|rewrite has_id_abs; exact Hpos|].
+             cbn [abs_loose]. rewrite is_itext_atext, is_itext_abs. reflexivity.
+        * destruct Hpos as (Hc0 & Et0 & Hm & Hb).
+          assert (Hpre' : existsb (has_id x) ((map atext (chain_texts data) ++ flat_map (akid dns) bk)
+                                              ++ abs_el dns c0 :: map atext b) = false).
+          { apply existsb_app_false; [exact Hpre|]. cbn [existsb]. rewrite has_id_abs, Hc0, existsb_texts. exact Hb. }
+          apply andb_true_iff in Hkids as [Hbk' Hrest]. apply andb_true_iff in Hrest as [Hc0t0 Hak].
+          apply andb_true_iff in Hc0t0 as [Hc0ok Ht0ok]. pose proof (chain_ok_texts _ Ht0ok) as Ht0t. rewrite Et0 in Ht0t.
+          destruct n as [c|t]; intros [Hclean Hg]; cbn [fst snd] in Hg; rewrite !abs_el_eq; fold dns;
+            rewrite <- (aloose_guard _ dns Hg); unfold akids; rewrite Ek.
+          -- split; [|split; [|reflexivity]].
+             ++ norm. rewrite Et0. norm.
+                match goal with |- g_before _ _ (INode _ _ ?l) = _ =>
+                  assert (EL : l = ((map atext (chain_texts data) ++ flat_map (akid dns) bk)
+                                      ++ abs_el dns c0 :: map atext b) ++ atext m :: map atext a ++ flat_map (akid dns) ak)
+                    by (norm; reflexivity) end.
+                rewrite EL, g_before_hit by (try assumption; cbn [aloose]; rewrite is_itext_abs; reflexivity).
+                norm. reflexivity.
+             ++ rewrite el_ok_eq. rewrite (kind_shape_tag _ _ _ _ _ _ Hne Hd Hks). cbn [loose_ok] in n_ok. bools.
+          -- split; [|split; [|reflexivity]].
+             ++ norm. rewrite Et0. norm.
+                match goal with |- g_before _ _ (INode _ _ ?l) = _ =>
+                  assert (EL : l = ((map atext (chain_texts data) ++ flat_map (akid dns) bk)
+                                      ++ abs_el dns c0 :: map atext b) ++ atext m :: map atext a ++ flat_map (akid dns) ak)
+                    by (norm; reflexivity) end.
+                rewrite EL, g_before_hit by (try assumption; reflexivity).
+                norm. reflexivity.
+             ++ rewrite el_ok_eq. rewrite (kind_shape_tag _ _ _ _ _ _ Hne Hd Hks). cbn [loose_ok] in n_ok. bools.
+      + rewrite abs_el_eq. apply g_before_miss. unfold akids. apply existsb_app_false; [rewrite existsb_texts; exact Sd|exact Sk].
+  Qed.
+End LocalMoves.
